@@ -57,6 +57,7 @@ type Ctx struct {
 	maxMism   int
 	perFinger map[string]int
 	NMism     int // total mismatches recorded (also beyond maxMism)
+	NSpecMism int // those of kind "spec"
 }
 
 func (c *Ctx) Thorough() bool { return c.Tier == "thorough" }
@@ -79,6 +80,9 @@ func (c *Ctx) nontrivial(fp string) {
 
 func (c *Ctx) mismatch(m Mismatch) {
 	c.NMism++
+	if m.Kind == "spec" {
+		c.NSpecMism++
+	}
 	// keep at most 4 witnesses per (backend, kind, fingerprint) so that a frequent (possibly known)
 	// mismatch never crowds a different one out of the report
 	if c.perFinger == nil {
